@@ -29,11 +29,21 @@ Inductive acop :=
 | XIsEmpty (b : bool)                     (* IsEmpty(..) == nil *)
 | XOnReadCalls (k : Z).                   (* how often the OnRead callback has run so far *)
 
+(** the application (real baseapp + ante chain + the installed pool), through ABCI; a transaction is its
+    signer list [(account, sequence)] in signature order — the pool keys it by the first *)
+Inductive pop :=
+| PCheck (signers : list (Z * Z)) (urls : list string) (prio : Z) (ok : bool)   (* CheckTx (new) *)
+| PRecheck (signers : list (Z * Z)) (ok : bool)                                 (* CheckTx (re-check) *)
+| PPrepare (out : list (Z * Z))                                                 (* PrepareProposal: first signers of the proposal *)
+| PBlock (txs : list (list (Z * Z))) (oks : list bool)                          (* FinalizeBlock (ante outcome per tx) + Commit *)
+| PSelect (out : list (Z * Z)).                                                 (* Select on app.Mempool() *)
+
 (** rule: 0 = no TxReplacement, 1 = new >= old, 2 = new > old, 3 = never *)
 Inductive case :=
 | CHist (ops : list (cop * Z))
 | CClass (url : string) (cls : option nat) (ante prio : Z)
-| CApi (max_tx rule : Z) (ops : list (acop * Z)).
+| CApi (max_tx rule : Z) (ops : list (acop * Z))
+| CApp (init_seqs : list (Z * Z)) (ops : list (pop * Z)).
 
 Definition opt_nat_eqb (a b : option nat) : bool :=
   match a, b with Some x, Some y => Nat.eqb x y | None, None => true | _, _ => false end.
@@ -113,9 +123,96 @@ Definition xstep (c : cfg) (acc : option astate) (oc : acop * Z) : option astate
     end
   end.
 
+(** *** the application model: sequence numbers of the check state and of the committed state, the pool,
+    the signer lists of the pending transactions *)
+Record appst := mkApp { p_chk : list (Z * Z); p_com : list (Z * Z); p_st : state; p_sigs : list ((Z * Z) * list (Z * Z)) }.
+
+(** ante: every signer's sequence equals the account's; then every one is incremented *)
+Definition seqs_match (m : list (Z * Z)) (signers : list (Z * Z)) : bool :=
+  forallb (fun x => snd x =? seq_get (fst x) m) signers.
+Definition bump (m : list (Z * Z)) (signers : list (Z * Z)) : list (Z * Z) :=
+  fold_left (fun m x => aset Z.eqb (fst x) (snd x + 1) m) signers m.
+Definition sigs_get (k : Z * Z) (m : list ((Z * Z) * list (Z * Z))) : list (Z * Z) :=
+  match aget sn_eqb k m with Some l => l | None => [k] end.
+
+(** baseapp.DefaultProposalHandler.PrepareProposalHandler over the Select order: a transaction one of whose
+    signers was already selected with a sequence that is not the predecessor is skipped; the others are
+    verified against the proposal state (ante on the committed state plus what was selected): selected or
+    collected as invalid (removed from the pool after the loop) *)
+Fixpoint prep_loop (sigs : list ((Z * Z) * list (Z * Z))) (sel : list (Z * Z)) (seen prep : list (Z * Z))
+  : list (Z * Z) * list (Z * Z) :=
+  match sel with
+  | [] => ([], [])
+  | k :: r =>
+    let signers := sigs_get k sigs in
+    let should := forallb (fun x => match aget Z.eqb (fst x) seen with None => true | Some q => q + 1 =? snd x end) signers in
+    if negb should then prep_loop sigs r seen prep
+    else if seqs_match prep signers
+         then let '(o, i) := prep_loop sigs r (fold_left (fun m x => aset Z.eqb (fst x) (snd x) m) signers seen) (bump prep signers) in (k :: o, i)
+         else let '(o, i) := prep_loop sigs r seen prep in (o, k :: i)
+  end.
+
+Definition block_step (acc : appst * list bool) (signers : list (Z * Z)) : appst * list bool :=
+  let '(a, oks) := acc in
+  match signers with
+  | [] => (a, oks ++ [false])
+  | (s, n) :: _ =>
+    if seqs_match (p_com a) signers
+    then (mkApp (p_chk a) (bump (p_com a) signers) (fst (remove s n (p_st a))) (adel sn_eqb (s, n) (p_sigs a)), oks ++ [true])
+    else (a, oks ++ [false])
+  end.
+
+Definition bool_list_eqb := list_eqb Bool.eqb.
+
+Definition pstep (acc : option appst) (oc : pop * Z) : option appst :=
+  match acc with
+  | None => None
+  | Some a =>
+    let '(o, cnt) := oc in
+    let r :=
+      match o with
+      | PCheck signers urls prio ok =>
+          match signers with
+          | (s, n) :: _ =>
+            if (tx_priority urls Gen.C19.app_check_tx_priority =? prio) && Bool.eqb (seqs_match (p_chk a) signers) ok
+            then Some (if ok then mkApp (bump (p_chk a) signers) (p_com a) (insert s n prio (p_st a)) (aset sn_eqb (s, n) signers (p_sigs a))
+                       else a)
+            else None
+          | [] => None
+          end
+      | PRecheck signers ok =>
+          match signers with
+          | (s, n) :: _ =>
+            if Bool.eqb (seqs_match (p_chk a) signers) ok
+            then Some (if ok then mkApp (bump (p_chk a) signers) (p_com a) (p_st a) (p_sigs a)
+                       else mkApp (p_chk a) (p_com a) (fst (remove s n (p_st a))) (adel sn_eqb (s, n) (p_sigs a)))
+            else None
+          | [] => None
+          end
+      | PPrepare out =>
+          let '(st1, (sel, pn)) := select_op (p_st a) in
+          let '(o', inv) := prep_loop (p_sigs a) (map tx_sn sel) [] (p_com a) in
+          if negb pn && sn_list_eqb o' out
+          then Some (mkApp (p_chk a) (p_com a) (fold_left (fun st k => fst (remove (fst k) (snd k) st)) inv st1)
+                           (fold_left (fun m k => adel sn_eqb k m) inv (p_sigs a)))
+          else None
+      | PBlock txs oks =>
+          let '(a', oks') := fold_left block_step txs (a, []) in
+          if bool_list_eqb oks' oks then Some (mkApp (p_com a') (p_com a') (p_st a') (p_sigs a')) else None
+      | PSelect out =>
+          let '(st1, (sel, pn)) := select_op (p_st a) in
+          if negb pn && sn_list_eqb (map tx_sn sel) out then Some (mkApp (p_chk a) (p_com a) st1 (p_sigs a)) else None
+      end in
+    match r with
+    | Some a' => if count (p_st a') =? cnt then Some a' else None
+    | None => None
+    end
+  end.
+
 Definition check (c : case) : bool :=
   match c with
   | CHist ops => match fold_left cstep ops (Some init) with Some _ => true | None => false end
   | CClass url cls ante prio => opt_nat_eqb (tx_class [url]) cls && (tx_priority [url] ante =? prio)
   | CApi mx rl ops => match fold_left (xstep (mkCfg mx (rule_of rl))) ops (Some ainit) with Some _ => true | None => false end
+  | CApp seqs ops => match fold_left pstep ops (Some (mkApp seqs seqs init [])) with Some _ => true | None => false end
   end.
